@@ -110,6 +110,24 @@ def gen_vectors(rng, n_random, directed):
                 T |= ((1 << (64 * rng.randrange(1, 4))) - 1) << (64 * k)
                 if T < p * top:
                     V.append(('mred', F, {'T': T}))
+            # exact carry coincidences of the word-serial reduction (lib/redcsolve.py), as raw reduction inputs and as products of two
+            # field elements (for the fused multiply-and-reduce routines), for 64- and 32-bit words, every round, with/without pending meta-carry
+            import redcsolve
+            for w in (64, 32):
+                nw = F.bits // w
+                for row in range(nw - 1):
+                    for t in redcsolve.coincidence_targets(w):
+                        for m in (0, 1):
+                            if row == 0 and m:
+                                continue
+                            label = 'w%d/round%d/P=2^w%+d/meta%d' % (w, row, t - (1 << w), m)
+                            Tc = redcsolve.solve_T(p, F.bits, w, row, t, m, rng)
+                            if Tc is not None:
+                                V.append(('mred', F, {'T': Tc, 'coinc': label}))
+                            ab = redcsolve.solve_product(p, F.bits, w, row, t, m, rng)
+                            if ab is not None:
+                                V.append(('fpmul', F, {'a': ab[0], 'b': ab[1], 'coinc': label}))
+                                V.append(('fpmul', F, {'a': ab[1], 'b': ab[0], 'coinc': label}))
             # products with prescribed residue (as in C02)
             for t in [1, 2, p - 1, p - 2] + [qtop + rng.randrange(1 << (F.bits - 64)) for _ in range(8)] + [rng.randrange(1 << (F.bits - 64)) for _ in range(8)]:
                 t %= p
@@ -411,6 +429,8 @@ def worker(sh):
         if len(toks) > 1:
             sh.violation('disagree:%s' % opn, 'back ends disagree on %s: %s' % (line[:200], {k: v[0][:40] for k, v in results.items()}), {'line': line})
         sh.event(opn, '%s/alias%d' % (cls, alias), trivial=False, n=len(results))
+        if prm.get('coinc'):
+            sh.event(opn + '.carry-coincidence', prm['coinc'], n=len(results))
         for be in results:
             sh.count('events_' + be)
         if sh.index == 0 and i % 400 == 0:
@@ -502,7 +522,10 @@ def run(ctx):
     ctx.assumptions = ['Python integer arithmetic', 'oracle/a64.py implements the 15 instruction forms that occur (unit-tested on hand-computed flag cases); not silicon',
                        'oracle/thumb.py interprets the ARMv6-M *source text* (GNU-as macro expansion, Thumb-1 semantics of the 17 mnemonics that occur, flags set by low-register data processing); results must not depend on the one encoding that is ambiguous without the assembler']
     need = ['raw384.mred|vcmp=/', 'raw384.mred|vcmp</top64=', 'raw384.mred|vcmp>/top64=', 'raw384.fpadd|cmp=/top64=', 'raw384.add|carry1/chain6', 'raw384.sub|borrow1/chain6', 'raw256.mred|', 'raw384.fpmul|',
-            'higher-layer-differential:C04|', 'higher-layer-differential:C06|']
+            'higher-layer-differential:C04|', 'higher-layer-differential:C06|',
+            'raw384.mred.carry-coincidence|w64/round0/P=2^w+0/meta0', 'raw384.mred.carry-coincidence|w64/round4/P=2^w+0/meta1', 'raw384.mred.carry-coincidence|w64/round3/P=2^w-1/meta1',
+            'raw384.mred.carry-coincidence|w32/round9/P=2^w+0/meta1', 'raw256.mred.carry-coincidence|w64/round2/P=2^w-1/meta1', 'raw384.fpmul.carry-coincidence|w64/round4/P=2^w+0/meta1',
+            'raw384.fpmul.carry-coincidence|w32/round10/P=2^w+0/meta1', 'raw256.fpmul.carry-coincidence|w64/round1/P=2^w+1/meta1']
     for r in need:
         if not any(k.startswith(r) for k in ctx.classes):
             ctx.required_classes.add(r)
